@@ -38,7 +38,7 @@ class KernelPreconditionMonitor:
                             mon.problems.append("join_blocks called with an empty block1 in another function than block2")
                         elif f1 is not None and cache.is_entry_block(block2) and not cache.is_entry_block(block1):
                             mon.problems.append("join_blocks called with an empty block1 in front of an entry block")
-                end_label = bool(block2.size and block1.size and any(s.at_end for s in rc.get_references(block1)))
+                end_label = bool(block2.size and any(s.at_end for s in rc.get_references(block1)))
             except Exception as ex:      # noqa -- the monitor must never disturb the run
                 mon.problems.append("monitor error %s: %s" % (type(ex).__name__, str(ex)[:80]))
                 end_label = False
